@@ -253,38 +253,51 @@ def ip6HeaderStores (l : IPv6) (len : Nat) (st : Bytes) : Res Bytes := do
     let st ← cp st 8 l.srcIP
     cp st 24 l.dstIP
 
-def serializeIPv6 (l : IPv6) (b : SBuf) (fix : Bool) : Res (SBuf × IPv6) := do
-  let pLen := (contents b).length
-  let jumbo : Bool := decide (pLen > maxPayloadLength)
-  let l ← (if jumbo then
-      if fix then addJumboOption l
-      else match l.hopByHop with
-        | none => .err "Cannot fit payload length into IPv6 packet"
-        | some h => do
-          let (_, ok) ← getJumboLength h
-          if ok then pure l else .err "Missing jumbo length hop-by-hop option"
-    else pure l : Res IPv6)
-  let already : Bool := l.hopByHop.isSome && b.layers.contains layerTypeIPv6HopByHop
-  let (b, l, pLen) ← (match l.hopByHop with
-    | some h =>
-      if already then pure (b, l, pLen)
-      else do
-        let l : IPv6 := if l.nextHeader ≠ ipProtocolIPv6HopByHop then
-                          { l with nextHeader := ipProtocolIPv6HopByHop } else l
-        let (b, h') ← serializeTlvExt h b fix
-        let l : IPv6 := { l with hopByHop := some h' }
-        let payload := contents b
-        if fix && jumbo then do
-          let p' ← setPayloadJumboLength payload
-          pure (setContents b p', l, payload.length)
-        else pure (b, l, payload.length)
-    | none => pure (b, l, pLen) : Res (SBuf × IPv6 × Nat))
+/-- First block of SerializeTo: `if pLen > ipv6MaxPayloadLength { jumbo = true; … }`. -/
+def ip6JumboPrep (l : IPv6) (fix jumbo : Bool) : Res IPv6 :=
+  if jumbo then
+    if fix then addJumboOption l
+    else match l.hopByHop with
+      | none => .err "Cannot fit payload length into IPv6 packet"
+      | some h => do
+        let (_, ok) ← getJumboLength h
+        if ok then pure l else .err "Missing jumbo length hop-by-hop option"
+  else pure l
+
+/-- Second block: serialize the hop-by-hop header unless the buffer already holds one; returns the
+    buffer, the layer and the payload length seen by the IPv6 header. -/
+def ip6HbhStep (l : IPv6) (b : SBuf) (fix jumbo : Bool) : Res (SBuf × IPv6 × Nat) :=
+  match l.hopByHop with
+  | some h =>
+    if b.layers.contains layerTypeIPv6HopByHop then pure (b, l, (contents b).length)
+    else do
+      let l : IPv6 := if l.nextHeader ≠ ipProtocolIPv6HopByHop then
+                        { l with nextHeader := ipProtocolIPv6HopByHop } else l
+      let (b, h') ← serializeTlvExt h b fix
+      let l : IPv6 := { l with hopByHop := some h' }
+      let payload := contents b
+      if fix && jumbo then do
+        let p' ← setPayloadJumboLength payload
+        pure (setContents b p', l, payload.length)
+      else pure (b, l, payload.length)
+  | none => pure (b, l, (contents b).length)
+
+/-- Third block: the 40-byte header. -/
+def ip6HeaderStep (l : IPv6) (b : SBuf) (fix jumbo : Bool) (pLen : Nat) : Res (SBuf × IPv6) :=
   if !jumbo && decide (pLen > maxPayloadLength) then .err "Cannot fit payload into IPv6 header"
   else
     let length := if fix then (if jumbo then 0 else pLen % 65536) else l.length
     let l : IPv6 := { l with length := length }
-    let b ← prependWith b 40 (ip6HeaderStores l (length % 65536))
-    pure (b, l)
+    match prependWith b 40 (ip6HeaderStores l (length % 65536)) with
+    | .ok b => .ok (b, l)
+    | .err e => .err e
+    | .panic k => .panic k
+
+def serializeIPv6 (l : IPv6) (b : SBuf) (fix : Bool) : Res (SBuf × IPv6) := do
+  let jumbo : Bool := decide ((contents b).length > maxPayloadLength)
+  let l ← ip6JumboPrep l fix jumbo
+  let (b, l, pLen) ← ip6HbhStep l b fix jumbo
+  ip6HeaderStep l b fix jumbo pLen
 
 /-! ## (*IPv6Routing).SerializeTo -/
 
